@@ -458,6 +458,26 @@ def escape_rule(R, ro, rule, kinds, what):
 # UNWIND (C08, C07): the drain leaves nothing behind on exceptional exit
 # ------------------------------------------------------------------------------------------
 
+def stack_height_names(ro):
+    """(name of the local holding the stack height recorded at the drain's entry - before the root task is pushed -,
+    set of source texts that denote the *current* height: len(self.<stack>) and locals freshly assigned from it)."""
+    d = ro.drain_method()
+    cfg = cfg_of(d)
+    sf = ro.stack_field()
+    lensrc = "len(self.%s)" % sf
+    pushes = [n for n, c in kit.call_sites(d, lambda c: q.call_name(c) == "self.%s.append" % sf)]
+    entry, current = None, set([lensrc])
+    for n in cfg.nodes:
+        if n.kind == "stmt" and isinstance(n.ast, ast.Assign) and q.src(n.ast.value) == lensrc and len(n.ast.targets) == 1 and isinstance(n.ast.targets[0], ast.Name):
+            nm = n.ast.targets[0].id
+            # recorded before the push on every path -> the entry height; otherwise a fresh reading of the current height
+            if pushes and cfg.find_path([cfg.entry], pushes, N, cut_nodes=[n]) is None and entry is None:
+                entry = nm
+            else:
+                current.add(nm)
+    return entry, current
+
+
 def unwind_rule(R, ro, rule):
     d = ro.drain_method()
     cfg = cfg_of(d)
@@ -586,10 +606,7 @@ def unwind_pauses(R, ro, rule):
                         "contexts it enters afterwards are resumed twice at its next step", cfg.fmt_path(pr) if pr else None)
     no_exc = lambda e: not (e.implicit and cfg.nodes[e.dst].kind == "except")
     # 1. the exception handler that truncates the stack
-    hname = None
-    for n in cfg.nodes:
-        if n.kind == "stmt" and isinstance(n.ast, ast.Assign) and q.src(n.ast.value) == "len(%s)" % sf and isinstance(n.ast.targets[0], ast.Name):
-            hname = n.ast.targets[0].id
+    hname, _cur = stack_height_names(ro)
     handlers = [n for n in cfg.nodes if n.kind == "except" and any(isinstance(x, ast.Raise) and x.exc is None for x in ast.walk(n.ast))]
     for h in handlers:
         good = [n for n, lower, rev in loops if lower == hname and rev]
